@@ -321,6 +321,17 @@ void resolve_case(Ctx& c, FaultProbe& probe, const std::string& text, const rr::
     if (back != d.canonical_raw()) bad("outputrefs", "OutputRefs(resolved) is not the input with canonical references", back, d.canonical_raw());
     bool allCanonical = true; for (auto& g : refs) allCanonical = allCanonical && g.text == g.ref.canonical();
     if (allCanonical && back != text) bad("outputrefs-identity", "all references canonical, yet OutputRefs(resolved) differs from the input", back, text); }
+  // a manager that already resolved another text (with references) answers for THIS text exactly like a fresh one
+  { RefsManager reused{ ctx };
+    (void)reused.Resolve("@{X1|nomn} z @{-1|basic} @{X2|sing,datv}");
+    const std::string out2 = reused.Resolve(text);
+    const auto& L2 = reused.get();
+    c.rep.count("checks", 3);
+    if (out2 != out) bad("reused-manager-resolve", "Resolve on a manager that resolved another text before differs from a fresh manager", out2, out);
+    bool sameRefs = L2.size() == L.size();
+    for (size_t i = 0; sameRefs && i < L.size(); ++i) sameRefs = to_model(L2[i]) == to_model(L[i]) && L2[i].position.start == L[i].position.start && L2[i].position.finish == L[i].position.finish && L2[i].resolvedText == L[i].resolvedText;
+    if (!sameRefs) bad("reused-manager-refs", "references held after Resolve on a reused manager differ from a fresh manager", show_impl(L2), show_impl(L));
+    else if (reused.OutputRefs(out2) != mgr.OutputRefs(out)) bad("reused-manager-outputrefs", "OutputRefs on a reused manager differs from a fresh manager", reused.OutputRefs(out2), mgr.OutputRefs(out)); }
   // ManagedText
   { ccl::lang::ManagedText mt; mt.InitFrom(text, ctx);
     c.rep.count("checks", 3);
